@@ -94,4 +94,19 @@ PROPS = {
         "not_decided": ["segment_ids = rank of the stored combination's state, and the state-choice indexer: bounded stand-in on sampled masks of extent <= 3 per axis (needs an inductive counting lemma that was not mechanised)"],
         "assumptions": COMMON_ASSUMPTIONS + ["np.repeat(arange(m), counts) and count_nonzero(axis) carry sound but incomplete contracts"],
     },
+    "C01": {
+        "contracts": [
+            "C01.period-step",
+            "lcm.model_functions.get_utility_and_feasibility_function",
+            "lcm.discrete_problem._solve_discrete_problem_no_shocks",
+            "lcm.dispatchers.spacemap",
+            "lcm.dispatchers.productmap",
+        ],
+        "families": {
+            "quick": "Skel-quick (9 skeletons) at the first and the last period",
+            "thorough": "Skel-thorough (32 skeletons incl. reversed declaration orders) at every period",
+        },
+        "not_decided": ["independence from JIT compilation (jax.jit is the identity in the model)", "floating-point rounding"],
+        "assumptions": COMMON_ASSUMPTIONS,
+    },
 }
